@@ -42,7 +42,7 @@ func c07ReadPath(n int) {
 }
 
 func VH_C07_ReadPath_quick()    { c07ReadPath(3) }
-func VH_C07_ReadPath_thorough() { c07ReadPath(5) }
+func VH_C07_ReadPath_thorough() { c07ReadPath(4) }
 
 // two path items
 func VH_C07_ReadPathTwoItems() {
